@@ -428,9 +428,11 @@ class Interp:
 
     def call_def(self, node, defenv, binder, a, kw, toplevel):
         args = binder(*a, **kw)  # Python calling rules; TypeError before anything is pushed
-        frame = self.pending
-        self.pending = None
-        self.frames.append(frame)
+        anon = bool(node.get("anon_block"))  # part of the callable it is written in: no caller frame of its own
+        frame = None if anon else self.pending
+        if not anon:
+            self.pending = None
+            self.frames.append(frame)
         self.max_depth = max(self.max_depth, len(self.frames) + len(self.bufs))
         buffered = bool(node.get("buffered"))
         filt = node.get("filter") or []
@@ -443,8 +445,9 @@ class Interp:
                 if toplevel:
                     env.parent = self.module_env
                 env.vars.update(args)
-                env.vars["caller"] = CallerProxy(frame)
-                env.vars["__frame"] = frame  # lexical: the frame of the callable that contains nested call tags
+                if not anon:
+                    env.vars["caller"] = CallerProxy(frame)
+                    env.vars["__frame"] = frame  # lexical: the frame of the callable that contains nested call tags
                 self.hoist(node["body"], env)
                 try:
                     self.run(node["body"], env)
@@ -454,8 +457,9 @@ class Interp:
                 if buffered or filt:
                     content = self.pop()
         finally:
-            self.frames.pop()
-            self.pending = None
+            if not anon:
+                self.frames.pop()
+                self.pending = None
         if filt:
             content = self.apply_filters(filt, content)
         if buffered:
@@ -574,7 +578,7 @@ class Interp:
         elif t == "continue":
             raise _Continue()
         elif t == "block":
-            fn = self.make_def({"name": n.get("name") or "__anon", "sig": "", "body": n["body"],
+            fn = self.make_def({"name": n.get("name") or "__anon", "sig": "", "body": n["body"], "anon_block": not n.get("name"),
                                 "buffered": n.get("buffered"), "filter": n.get("filter")}, env, False)
             r = fn()
             if n.get("buffered"):
